@@ -129,6 +129,8 @@ func (c *Client) handleRequestLocked(msg *jmessage) {
 			defer c.mu.Unlock()
 			if c.err != nil {
 				c.log("Discarding callback response: %v", c.err)
+			} else if len(bits) == 0 {
+				c.log("Discarding callback response: no encodable reply for %v", msg)
 			} else if err := c.ch.Send(bits); err != nil {
 				c.log("Sending reply for callback %v failed: %v", msg, err)
 			}
